@@ -475,15 +475,30 @@ func ruleP3(c *Ctx) *RuleResult {
 	}
 	// nothing can return between publishing a segment (append) and the window guard
 	for i, ap := range appends {
-		if ap.Parent() != fn {
-			continue
-		}
 		// only the append of the finished segment (not the gap prefill in a loop)
 		if inLoop(ap) {
 			continue
 		}
 		key := fmt.Sprintf("rotateSegments|trim-after-append#%d", i+1)
-		bad := pathAvoiding(c, fn, ap, func(x ssa.Instruction) bool { return x == guard }, func(x ssa.Instruction) bool {
+		afn := ap.Parent()
+		isGuard := func(x ssa.Instruction) bool { return x == guard }
+		if afn != fn {
+			// the trim lives in a helper: the call of that helper plays the part of the guard
+			called := false
+			allInstrs(afn, func(x ssa.Instruction) {
+				if call, ok := x.(*ssa.Call); ok && call.Call.StaticCallee() == fn {
+					called = true
+				}
+			})
+			if !called {
+				continue
+			}
+			isGuard = func(x ssa.Instruction) bool {
+				call, ok := x.(*ssa.Call)
+				return ok && call.Call.StaticCallee() == fn
+			}
+		}
+		bad := pathAvoiding(c, afn, ap, isGuard, func(x ssa.Instruction) bool {
 			_, isRet := x.(*ssa.Return)
 			return isRet
 		})
@@ -950,7 +965,29 @@ func ruleP6(c *Ctx) *RuleResult {
 			}
 		})
 		if loopClose {
-			r.ok("muxerStream.close|listed", c.Pos(fn.Pos()), FuncName(fn), "stream close calls close() on every listed segment", "range over s.segments")
+			// ... on every path: no return is reachable from the entry without reading the window
+			var first ssa.Instruction
+			if len(fn.Blocks) > 0 && len(fn.Blocks[0].Instrs) > 0 {
+				first = fn.Blocks[0].Instrs[0]
+			}
+			var bad []string
+			readsWindow := func(x ssa.Instruction) bool {
+				u, ok := x.(*ssa.UnOp)
+				if !ok || u.Op != token.MUL {
+					return false
+				}
+				f, _ := fieldOfAddr(u.X)
+				return f == segF
+			}
+			if first != nil && !readsWindow(first) {
+				bad = pathAvoiding(c, fn, first, readsWindow, func(x ssa.Instruction) bool { _, ok := x.(*ssa.Return); return ok })
+			}
+			if bad == nil {
+				r.ok("muxerStream.close|listed", c.Pos(fn.Pos()), FuncName(fn), "stream close calls close() on every listed segment, on every path", "range over s.segments; no return precedes it")
+			} else {
+				r.fail("muxerStream.close|listed", c.Pos(fn.Pos()), FuncName(fn), "stream close calls close() on every listed segment, on every path",
+					"a return is reachable before the loop over s.segments: in that state (e.g. no open segment after a failed rotation) the files of the listed segments stay in Directory after Close", bad...)
+			}
 		} else {
 			r.undecided("%s: %s — %s (the construct this rule is anchored on was not found: no verdict)", "muxerStream.close|listed", "stream close calls close() on every listed segment", "no loop over s.segments calling close()")
 		}
